@@ -2,6 +2,7 @@ package simnet
 
 import (
 	"fmt"
+	"os"
 	"runtime"
 	"sort"
 	"sync"
@@ -264,8 +265,8 @@ func Yield(site int) {
 		return
 	}
 	n := N
-	if n == nil {
-		return
+	if n == nil || !runtime.SimInBubble() {
+		return // goroutines started before the bubble (package init) are not ours to schedule
 	}
 	idx := yieldCount
 	yieldCount++
@@ -323,6 +324,8 @@ type action struct {
 	g    *parkedG
 	idx  int
 }
+
+var schedDebug = os.Getenv("VERIF_SCHED_DEBUG") != ""
 
 // ErrStepCap is returned by Run when the step budget is exhausted.
 var ErrStepCap = fmt.Errorf("simnet: step cap reached")
@@ -430,6 +433,9 @@ func (n *Net) Run() error {
 			}
 		}
 		if len(acts) == 0 {
+			if schedDebug {
+				println("sched idle now", int64(now), "next", int64(next), "syns", len(n.syns), "dgrams", len(n.dgrams), "timed", len(n.timedActs), "parked", len(n.parked), "live", len(n.livePairs), "steps", n.Steps)
+			}
 			n.mu.Unlock()
 			if next >= 0 {
 				idle.Reset(next - now)
@@ -442,6 +448,9 @@ func (n *Net) Run() error {
 				<-n.kick
 			}
 			continue
+		}
+		if schedDebug && n.Steps%50000 == 0 {
+			println("sched busy now", int64(now), "steps", n.Steps, "acts", len(acts), "kind0", acts[0].kind, "live", len(n.livePairs), "parked", len(n.parked))
 		}
 		// choose
 		var a action
